@@ -19,6 +19,7 @@ package main
 import (
 	"fmt"
 	"go/types"
+	"sort"
 	"strings"
 
 	"golang.org/x/tools/go/ssa"
@@ -237,9 +238,18 @@ func (env *SpecEnv) specPureFuncCall(e *SExpr, sel int) (specVal, bool) {
 		q := name[:i]
 		name = name[i+1:]
 		if pp := fx.e.ppkgs[env.pkg]; pp != nil {
+			// several imports may share the name (asm/enum and ir/enum): take, in path order, the first one
+			// that declares the function
+			var paths []string
 			for path, imp := range pp.Imports {
 				if imp.Name == q || strings.HasSuffix(path, "/"+q) {
-					pkg = fx.e.pkgs[path]
+					paths = append(paths, path)
+				}
+			}
+			sort.Strings(paths)
+			for _, path := range paths {
+				if p := fx.e.pkgs[path]; p != nil && (pkg == nil || (pkg.Func(name) == nil && p.Func(name) != nil)) {
+					pkg = p
 				}
 			}
 		}
